@@ -20,13 +20,14 @@
  "name": "mem_is_zero",
  "props": ["C16"],
  "level": "U",
- "tier": "wip",
+ "tier": "quick",
  "harness": "h_mem_is_zero",
  "enforce": ["ext2fs_mem_is_zero"],
  "loop_contracts": true,
  "functions": ["lib/ext2fs/gen_bitmap.c:ext2fs_mem_is_zero"],
  "assumes": ["buffer length capped at 2^17 bytes (object-size cap; the chunk loop is closed by its loop contract, nothing depends on the cap); length, content and the 8 byte-misalignments otherwise symbolic",
-             "libc memcmp replaced by its C11 semantics stated pointwise (specs/c16_ba_memcmp.h): result 0 => equal at the ghost byte, result != 0 => a differing byte exists (its address published in a ghost)",
+             "libc memcmp replaced by its C11 semantics stated pointwise (specs/c16_ba_memcmp.h): result 0 => equal at the ghost byte, result != 0 => a differing byte exists (its object offset published in the ghost verif_g4)",
+             "the loop contract contains one __CPROVER_forall over the CONSTANT range 0..255 (zero_buf stays all-zero: DFCC treats the function-local static as assignable by the loop and havocs it); the SAT back end expands it, no quantifier is left to the solver",
              "needs the in-place loop contract of hooks-pending/ba.diff (gen_bitmap.c)"],
  "native": true
 }
